@@ -45,7 +45,7 @@ def _case(draw):
 
 def drivers(tier):
     th = tier == 'thorough'
-    return [dict(kind='hyp', name='merges', strategy=_case(), examples=20000 if th else 3000)]
+    return [dict(kind='hyp', name='merges', strategy=_case(), examples=60000 if th else 6000)]
 
 
 def _blockdiag(mats):
